@@ -68,13 +68,19 @@ def problems_json(doc, opt):
         return ["the text breaks PROV-JSON: %s" % str(e)[:300]], text, None
     except Exception as e:
         return ["independent reader failed on the text (%s: %s)" % (type(e).__name__, str(e)[:200])], text, None
-    if notes["ambiguous_bundle_ids"]:
-        return [], text, "ambiguous"
+    problems = []
+    # content first (bundle keys read leniently: in the bundle's scope, else the document's), then the scope of the bundle keys
     if notes["structural_problems"]:
-        return ["structural: %s" % notes["structural_problems"][:3]], text, None
-    if got != want:
-        return [{"diff": strict.diff(want, got)}], text, None
-    return [], text, None
+        problems.append("structural: %s" % notes["structural_problems"][:3])
+    elif got != want:
+        problems.append({"diff": strict.diff(want, got)})
+    if notes["bundle_ids_outside_document_scope"]:
+        problems.append("the key %r of the document-level 'bundle' object cannot be resolved with the document's own prefix declarations (only "
+                        "with those inside the bundle, where it denotes <%s>)" % tuple(notes["bundle_ids_outside_document_scope"][0]))
+    if notes["ambiguous_bundle_ids"]:
+        problems.append("the key %r of the document-level 'bundle' object denotes <%s> under the bundle's declarations but <%s> under the "
+                        "document's" % tuple(notes["ambiguous_bundle_ids"][0]))
+    return problems, text, None
 
 
 def problems_xml(doc, force, dest):
@@ -110,10 +116,6 @@ def judge(ctx, idx, case):
             return
         opt = c01.OPTS[case["opt"]]
         problems, text, flag = problems_json(doc, opt)
-        if flag == "ambiguous":
-            ctx.count("skipped.ambiguous_bundle_id")
-            common.drain_monitors(ctx, idx, case)
-            return
         ctx.count("json_texts_read")
         rejudge = lambda c: problems_json(common.build(c["ops"]).doc, opt)[0]
     else:
